@@ -10,6 +10,7 @@ import Scico.Proofs.DriverMore
 import Scico.Proofs.DriverDisp
 import Scico.Proofs.DriverClock
 import Scico.Proofs.DriverRaise
+import Scico.Proofs.DriverBridge
 
 namespace Scico.Props.C15
 open Scico.Driver Scico.Driver.Spec
@@ -329,6 +330,42 @@ example :
       Clock.specTotal (Clock.labelHistory c (h.take 2) 1) 0 = 3 ∧
       ((Clock.Timer.init c.init c.dflt c.all).run h).elapsed (some 1) true 10 = some 6 := by
   decide
+
+/-- **One timer, two transcriptions.**  On every non-decreasing integer-tick history the `Nat`
+    transcription of `Timer` (used by the `solve` model) returns, cast to ℤ, exactly what the
+    generic-clock transcription returns on the same history — values and `KeyError`s — and
+    therefore the tick-counting stop-watch (`specElapsed`) and the gap-summing one
+    (`Clock.specElapsed`) agree there. -/
+theorem C15_timer_nat_is_clock {L : Type} [DecidableEq L] (c : Cfg L) (h : List (Call L)) (now : Nat)
+    (hm : Monotone h now) (label : Option L) (total : Bool) :
+    (((Timer.init c.init c.dflt c.all).run h).elapsed label total now).map (fun v => (v : Int)) =
+        ((Clock.Timer.init c.init c.dflt c.all : Clock.Timer L Int).run (h.map castCall)).elapsed label total (now : Int) ∧
+      (specElapsed c h label total now).map (fun v => (v : Int)) =
+        Clock.specElapsed c (h.map castCall) label total (now : Int) :=
+  ⟨timer_nat_is_clock c h now hm label total, specElapsed_tick_eq_gap c h now hm label total⟩
+
+/-- **Constructor options** (`Optimizer.__init__`; the table `optionDefaults` is compared with the
+    `kwargs.pop` calls of the source by the generated obligation `DriverSource.optionDefaults_ok`):
+    without keywords `iter0 = 0`, `maxiter = 100`, `nanstop = False`, no statistics options; a keyword
+    list is rejected (`TypeError`) iff it names something that is not in the table. -/
+theorem C15_option_defaults (kw : List (String × Int)) :
+    parseKwargs [] = some { iter0 := 0, maxiter := 100, nanstop := false, itstatGiven := false } ∧
+      (parseKwargs kw = none ↔ ∃ p ∈ kw, p.1 ∉ ["iter0", "maxiter", "nanstop", "itstat_options"]) := by
+  refine ⟨by decide, ?_⟩
+  have hk : optionDefaults.map (·.1) = ["iter0", "maxiter", "nanstop", "itstat_options"] := by decide
+  unfold parseKwargs
+  simp only [hk]
+  constructor
+  · intro h
+    simp at h
+    obtain ⟨a, ⟨b, hb⟩, hne⟩ := h
+    exact ⟨(a, b), hb, by simpa using hne⟩
+  · rintro ⟨p, hp, hn⟩
+    simp
+    exact ⟨p.1, ⟨p.2, hp⟩, by simpa using hn⟩
+
+example : parseKwargs [("maxiter", 7), ("nanstop", 1)] = some { iter0 := 0, maxiter := 7, nanstop := true, itstatGiven := false } ∧
+    parseKwargs [("maxiters", 7)] = none := by decide
 
 /-! ## `solve()` -/
 
